@@ -548,6 +548,10 @@ def explore_schedules(scn, max_depth=40, max_paths=4000):
             if e2[-1] is not None:
                 ext.append(a)
         if not ext:
+            if len(prefix) < max_depth and evs:
+                # nothing more can happen on the real executor: the schedule is complete, and the specification has to agree
+                # that the run is over (a subroutine left waiting for ever ends here too)
+                evs = evs + [{"a": "end", "post": evs[-1]["post"]}]
             paths.append(evs)
             continue
         edges += len(ext)
